@@ -11,7 +11,7 @@
     [exact] of a lemma of Coalesce/QueueProofs.v. *)
 From Coq Require Import Sorting.Sorted.
 From Gnmi Require Import Base.Prelude Base.Lts Coalesce.QueueModel Coalesce.QueueLts
-  Coalesce.QueueCheck Coalesce.QueueProofs.
+  Coalesce.QueueCheck Coalesce.QueueProofs Coalesce.QueueLive.
 Open Scope N_scope.
 
 (** Refinement to the abstract coalescing queue: the critical sections are a
@@ -206,3 +206,125 @@ Theorem C11_K_sched_sound :
       aq_replay acc' = Some (ks_aq k') /\ hist_ok acc' (ks_aq k').
 Proof. exact K_sched_check_sound. Qed.
 Print Assumptions C11_K_sched_sound.
+
+(** ** Liveness under fairness (Coalesce/QueueLive.v)
+
+    A run is an infinite sequence of states with an optional label per step
+    ([None]: nobody moves, so maximal finite traces are runs that stutter for
+    ever); [is_run lstep run lab] says every labelled step is a step of the
+    transition system.  [wfair lstep run lab P]: from every point on, the thread
+    owning the labels [P] eventually takes a step or is disabled.  The consumer
+    owns [LC] and [LSel _] ([LC] from [CIdle] is calling Next again: a fair
+    consumer keeps calling Next); producer [n] owns [LP n].
+    [delivers run lab j x]: step [j] is the locked next() popping [x] (which
+    returns [x] with its exact duplicate count: [C11_next_delivers_first]). *)
+
+(** (1) Every pending item -- every locked insert, completed or not -- is
+    eventually delivered when the consumer and the producers are weakly fair. *)
+Theorem C11_fair_delivery :
+  forall (run : nat -> lstate) (lab : nat -> option label),
+    run 0%nat = l_init -> is_run lstep run lab ->
+    wfair lstep run lab cons_label ->
+    (forall n, wfair lstep run lab (fun l => l = LP n)) ->
+    forall k x, In x (q_queue (l_q (run k))) ->
+    exists j, (k <= j)%nat /\ delivers run lab j x.
+Proof. exact fair_delivery. Qed.
+Print Assumptions C11_fair_delivery.
+
+Theorem C11_fair_delivery_insert :
+  forall (run : nat -> lstate) (lab : nat -> option label),
+    run 0%nat = l_init -> is_run lstep run lab ->
+    wfair lstep run lab cons_label ->
+    (forall n, wfair lstep run lab (fun l => l = LP n)) ->
+    forall k n i, lab k = Some (LP n) -> l_pp (run k) n = PChecked i ->
+    exists j, (k < j)%nat /\ delivers run lab j i.
+Proof. exact fair_delivery_insert. Qed.
+Print Assumptions C11_fair_delivery_insert.
+
+(** With a weakly fair consumer alone: every Insert that returned "new"
+    (locked section at [k0], return at [k1]) is delivered after its locked
+    section. *)
+Theorem C11_fair_delivery_completed :
+  forall (run : nat -> lstate) (lab : nat -> option label),
+    run 0%nat = l_init -> is_run lstep run lab ->
+    wfair lstep run lab cons_label ->
+    forall k0 k1 n i,
+      lab k0 = Some (LP n) -> l_pp (run k0) n = PChecked i ->
+      (k0 < k1)%nat -> lab k1 = Some (LP n) -> l_pp (run k1) n = PInserted i true ->
+      exists j, (k0 < j)%nat /\ delivers run lab j i.
+Proof. exact fair_delivery_completed. Qed.
+Print Assumptions C11_fair_delivery_completed.
+
+(** ... and the producers' fairness cannot be dropped for coalesced inserts:
+    a consumer-fair run in which a completed coalesced Insert(5) is never
+    delivered, because the producer that inserted 5 first never sends its
+    token. *)
+Theorem C11_fair_delivery_consumer_only_refuted :
+  exists run lab,
+    run 0%nat = l_init /\ is_run lstep run lab /\ wfair lstep run lab cons_label /\
+    lab 4%nat = Some (LP 1) /\ l_pp (run 4%nat) 1%nat = PChecked 5 /\
+    lab 5%nat = Some (LP 1) /\ l_pp (run 5%nat) 1%nat = PInserted 5 false /\
+    (forall j, (3 <= j)%nat -> q_queue (l_q (run j)) = [5]) /\
+    (forall j, ~ delivers run lab j 5) /\
+    (forall j, (3 <= j)%nat -> l_pp (run j) 0%nat = PInserted 5 true).
+Proof. exact fair_delivery_consumer_only_refuted. Qed.
+Print Assumptions C11_fair_delivery_consumer_only_refuted.
+
+(** (2) A consumer inside Next returns once the queue is closed or its context
+    is cancelled ([awake]); [returns run lab j]: step [j] is a consumer step
+    from inside a call to between calls. *)
+Theorem C11_wake_returns :
+  forall (run : nat -> lstate) (lab : nat -> option label),
+    run 0%nat = l_init -> is_run lstep run lab -> wfair lstep run lab cons_label ->
+    forall k, l_cp (run k) <> CIdle ->
+              q_closed (l_q (run k)) = true \/ l_cancelled (run k) = true ->
+    exists j, (k <= j)%nat /\ returns run lab j.
+Proof. exact wake_returns. Qed.
+Print Assumptions C11_wake_returns.
+
+Theorem C11_cancel_returns :
+  forall (run : nat -> lstate) (lab : nat -> option label),
+    run 0%nat = l_init -> is_run lstep run lab -> wfair lstep run lab cons_label ->
+    forall k, l_cp (run k) <> CIdle -> l_cancelled (run k) = true ->
+    exists j, (k <= j)%nat /\ returns run lab j.
+Proof. exact cancel_returns. Qed.
+Print Assumptions C11_cancel_returns.
+
+(** After Close, with no Insert between its closed check and its locked
+    section ([quiet]) and no cancellation, the consumer delivers everything
+    that was pending and is then told "closed". *)
+Theorem C11_close_drains :
+  forall (run : nat -> lstate) (lab : nat -> option label),
+    run 0%nat = l_init -> is_run lstep run lab -> wfair lstep run lab cons_label ->
+    (forall j, l_cancelled (run j) = false) ->
+    forall k, q_closed (l_q (run k)) = true /\ (forall n i, l_pp (run k) n <> PChecked i) ->
+    exists j, (k <= j)%nat /\ lab j = Some LC /\ l_cp (run j) = CLen /\
+              l_hist (run (S j)) = ERetNext NClosed :: l_hist (run j) /\
+              forall x, In x (q_queue (l_q (run k))) ->
+                        exists j', (k <= j' < j)%nat /\ delivers run lab j' x.
+Proof. exact close_drains_all_delivered. Qed.
+Print Assumptions C11_close_drains.
+
+(** (3) The statement discriminates: over the variant whose wake-up channel is
+    unbuffered ([ustep]) there is a run, fair for the consumer and for every
+    producer, in which Insert(5) returns "new" and 5 is never delivered. *)
+Theorem C11_unbuffered_delivery_refuted :
+  exists run lab,
+    run 0%nat = u_init /\ is_run ustep run lab /\
+    wfair ustep run lab cons_label /\
+    (forall n, wfair ustep run lab (fun l => l = LP n)) /\
+    lab 2%nat = Some (LP 0) /\ l_pp (u_s (run 2%nat)) 0%nat = PChecked 5 /\
+    lab 3%nat = Some (LP 0) /\ l_pp (u_s (run 3%nat)) 0%nat = PInserted 5 true /\
+    (forall j, (3 <= j)%nat -> q_queue (l_q (u_s (run j))) = [5]) /\
+    (forall j, ~ udelivers run lab j 5).
+Proof. exact unbuffered_delivery_refuted. Qed.
+Print Assumptions C11_unbuffered_delivery_refuted.
+
+Theorem C11_unbuffered_fair_delivery_false :
+  ~ (forall run lab,
+       run 0%nat = u_init -> is_run ustep run lab -> wfair ustep run lab cons_label ->
+       (forall n, wfair ustep run lab (fun l => l = LP n)) ->
+       forall k x, In x (q_queue (l_q (u_s (run k)))) ->
+       exists j, (k <= j)%nat /\ udelivers run lab j x).
+Proof. exact unbuffered_fair_delivery_false. Qed.
+Print Assumptions C11_unbuffered_fair_delivery_false.
